@@ -350,8 +350,45 @@ def none_case_verdict(got, want, names):
     return worst, ''
 
 
-def compare_objs(rep, rule, key, w, got, want, what, repo=None):
+def angle_decimal_verdict(repo, got, decimals):
+    """got: a CoordGeo (or a conditional of them) whose latitude / longitude are angle objects BUILT by a constructor call; decimals: the
+    decimal degrees they must denote.  The constructors read their numeric argument in the class's own notation (whole degrees + minutes +
+    seconds, HP digits, gradians): handing them decimal degrees is a unit error.  The decimal value of the built object is compared
+    with the reference decimal."""
+    leaves_ = []
+
+    def walk(v):
+        if isinstance(v, IteV):
+            walk(v.a)
+            walk(v.b)
+        elif isinstance(v, Obj):
+            leaves_.append(v)
+    walk(got)
+    for o in leaves_:
+        for fld, ref in zip(('lat', 'lon'), decimals):
+            a = o.fields.get(fld)
+            if not (isinstance(a, Obj) and 'dec' in a.cls.methods and isinstance(ref, Rat)) or (a.origin or '').startswith('param'):
+                continue
+            ev = Evaluator(repo)        # the class's own dec(), evaluated (not the opaque summary the wiring rules use)
+            ev.rat_type_is_float = True
+            try:
+                d = ev.invoke(a.cls.methods['dec'], [a], {}, None)
+            except (AnalysisError, RecursionError):
+                continue
+            d = d.rat if isinstance(d, CallV) else d
+            if isinstance(d, Rat) and alg.decide_equal(d, ref) == 'different':
+                return '%s: the %s object that is built denotes %s degrees, not the %s it was built from (%s): the constructor reads its argument in the notation of the class - whole ' \
+                       'degrees, minutes and seconds as separate fields - and decimal degrees handed to it lose their fraction' % (fld, a.cls.name, show(d, 2, 90), fld, show(ref, 1, 60))
+    return ''
+
+
+def compare_objs(rep, rule, key, w, got, want, what, repo=None, decimals=None):
     r = compare_values(got, want)
+    if r == 'unknown' and decimals is not None and repo is not None:
+        av = angle_decimal_verdict(repo, got, decimals)
+        if av:
+            rep.violated(rule, key, w, what + ': differs from the reference in ' + av, expected=show(want, 2, 300), actual=show(got, 2, 300))
+            return 'different'
     if r == 'unknown':
         r3, note3 = none_case_verdict(got, want, ['ell_ht', 'orth_ht', 'nval'])
         if r3 == 'different':
@@ -432,8 +469,13 @@ def delegation_rules(repo, rep, only=None):
         Eo = sym_ellipsoid(orc.ev, orc.repo, 'ellipsoid')
         no = Ref(orc.repo.cls('geodepy.angles', nname)) if nname != 'float' else nref
         want = orc.call('cart_geo', x=x, y=y, z=z, nval=nv, ellipsoid=Eo, notation=no)
+        dec_ = None
+        if nname != 'float':
+            wf_ = orc.call('cart_geo', x=x, y=y, z=z, nval=NONE, ellipsoid=Eo, notation=[r_ for n_, r_ in nots if n_ == 'float'][0])
+            if isinstance(wf_, Obj) and isinstance(wf_.fields.get('lat'), (Rat, CallV)):
+                dec_ = tuple((v_.rat if isinstance(v_, CallV) else v_) for v_ in (wf_.fields.get('lat'), wf_.fields.get('lon')))
         compare_objs(rep, 'R-WIRE', base + 'CoordCart.geo::%s' % nname, where(f, f.node), got, want,
-                     'CoordCart.geo(notation=%s) = CoordGeo(xyz2llh(own x, y, z, ellipsoid) in that notation, ell_ht, ell_ht - N when N is present)' % nname)
+                     'CoordCart.geo(notation=%s) = CoordGeo(xyz2llh(own x, y, z, ellipsoid) in that notation, ell_ht, ell_ht - N when N is present)' % nname, repo=repo, decimals=dec_)
     # ---- CoordGeo.cart
     f = repo.func('geodepy.coord', 'CoordGeo.cart')
     rep.analysed(f)
@@ -494,8 +536,14 @@ def delegation_rules(repo, rep, only=None):
         Po = sym_projection(orc.ev, orc.repo, 'self.projection')
         no = Ref(orc.repo.cls('geodepy.angles', nname)) if nname != 'float' else nref
         want = orc.call('tm_geo', zone=zone, east=east, north=north, ell_ht=eh, orth_ht=oh, hemi_north=hn, projection=Po, ellipsoid=Eo, notation=no)
+        dec_ = None
+        if nname != 'float':
+            wf_ = orc.call('tm_geo', zone=zone, east=east, north=north, ell_ht=eh, orth_ht=oh, hemi_north=hn, projection=Po, ellipsoid=Eo, notation=[r_ for n_, r_ in nots if n_ == 'float'][0])
+            leaf_ = wf_.a if isinstance(wf_, IteV) else wf_
+            if isinstance(leaf_, Obj) and isinstance(leaf_.fields.get('lat'), (Rat, CallV)) and not isinstance(wf_, IteV):
+                dec_ = tuple((v_.rat if isinstance(v_, CallV) else v_) for v_ in (leaf_.fields.get('lat'), leaf_.fields.get('lon')))
         compare_objs(rep, 'R-WIRE', base + 'CoordTM.geo::%s' % nname, where(f, f.node), got, want,
-                     'CoordTM.geo(notation=%s) = CoordGeo(grid2geo(own zone, east, north, own hemisphere, ellipsoid, own projection) in that notation, heights unchanged)' % nname)
+                     'CoordTM.geo(notation=%s) = CoordGeo(grid2geo(own zone, east, north, own hemisphere, ellipsoid, own projection) in that notation, heights unchanged)' % nname, repo=repo, decimals=dec_)
     # ---- the two composite methods
     for q, parts in ((('CoordCart.tm', ('geo', 'tm')), ('CoordTM.cart', ('geo', 'cart'))) if only is None else ()):
         f = repo.func('geodepy.coord', q)
@@ -602,6 +650,20 @@ def dispatch_rules(repo, rep):
                 rep.violated('R-DISPATCH', key, wh or w, 'changing the notation of a %s coordinate to %s fails: %s' % (sname, tname, msg) +
                              (' (UnboundLocalError)' if k == 'unbound' else ' (AttributeError)'),
                              expected='a CoordGeo holding %s latitude/longitude' % tname, actual=msg)
+                continue
+            if got is None or isinstance(got, NoneV):
+                # no value comes back: every path of this (source, target) pair ends in a raise (or falls off the end)
+                own = [(q_, c_, nd_) for q_, c_, nd_ in ev.raise_conds if q_ == f.qualname]
+                if own:
+                    nd_ = own[-1][2]
+                    msg_ = ''
+                    for r_ in ast.walk(nd_):
+                        if isinstance(r_, ast.Raise) and r_.exc is not None:
+                            msg_ = stmt_text(r_.exc)[:80]
+                    rep.violated('R-DISPATCH', key, where(f, nd_), 'changing the notation of a %s coordinate to %s raises (%s): every pair of the six supported types is a valid request - also a '
+                                 'notation the coordinate already has' % (sname, tname, msg_ or 'raise'), expected='a CoordGeo holding %s latitude/longitude' % tname, actual='raise ' + msg_)
+                else:
+                    rep.violated('R-DISPATCH', key, w, 'changing the notation of a %s coordinate to %s returns nothing' % (sname, tname), expected='a CoordGeo', actual='None')
                 continue
             if not isinstance(got, Obj) or got.cls.name != 'CoordGeo':
                 rep.undecided('R-DISPATCH', key, w, 'result is not a CoordGeo: %s' % show(got, 2, 100))
@@ -773,6 +835,9 @@ def run(repo, rep):
     dispatch_rules(repo, rep)
     # the chain tm -> geo -> tm: the longitude CoordTM.geo() holds must be one CoordGeo.tm() (geo2grid) accepts
     common.longitude_range_rule(repo, rep)
+    # ... and of the type the coordinate classes accept
+    common.float_result_rule(repo, rep, 'geodepy.convert', 'xyz2llh', (0, 1))
+    common.float_result_rule(repo, rep, 'geodepy.convert', 'grid2geo', (0, 1))
     # definite assignment in the dispatcher (the outer type chain is exhaustive by the constructor's type check)
     f = repo.func('geodepy.coord', 'CoordGeo.notation')
     allowed = exhaustive_type_chain(repo)
